@@ -551,11 +551,24 @@ func (r *wsRun) exec(e wsEv) error {
 				}
 				r.mustDeliver[e.I] = append(r.mustDeliver[e.I], e.P)
 			}
+			// the payload is opaque to the protocol layer: user data may itself contain the protocol's key names
+			// and message-type words, and JSON members may come in any order (seeded change C14-r10)
 			pl := fmt.Sprintf(`{"data":{"p":%d}}`, e.P)
+			switch e.P % 4 {
+			case 1:
+				pl = fmt.Sprintf(`{"data":{"p":%d,"task":{"type":"complete","id":"0"}}}`, e.P)
+			case 2:
+				pl = fmt.Sprintf(`{"data":{"type":"error","p":%d,"id":%q,"payload":null},"extensions":{"type":"connection_ack"}}`, e.P, "x"+id)
+			case 3:
+				pl = fmt.Sprintf(`{"extensions":{"note":"\"type\":\"complete\""},"data":{"p":%d}}`, e.P)
+			}
 			if e.Dec != nil && !*e.Dec {
 				pl = `[1,2]`
 			}
 			data = fmt.Sprintf(`{"type":"next","id":%q,"payload":%s}`, id, pl)
+			if e.P%8 >= 4 {
+				data = fmt.Sprintf(`{"payload":%s,"id":%q,"type":"next"}`, pl, id)
+			}
 		case "complete":
 			r.srvCompleted[e.I] = true
 			data = fmt.Sprintf(`{"type":"complete","id":%q}`, id)
